@@ -72,6 +72,16 @@ unreach_conflict | ok | S -> a ; U -> U U | b
 nested_cores_let_run | ok | S -> let R | run C ; R -> C | I ; C -> id lp ; I -> id ls
 nested_cores_get_invoke | ok | S -> get N semi | invoke A semi ; N -> id ; A -> id | id dot id
 nested_cores_swap | ok | S -> a X | b Y ; X -> P | Q ; Y -> P ; P -> i l ; Q -> i m
+selfloop_nt_parens | ok | E -> | P E Q ; P -> l ; Q -> r
+selfloop_atom_g | ok | A -> open B ; B -> A g | atom
+selfloop_open_shut | ok | X -> open X shut | open atom
+selfloop_nt_list | ok | L -> | I L ; I -> a | b c
+never_mid | ok | S -> a N b | c ; N -> !
+never_after_nt | ok | S -> I N b | c ; I -> a ; N -> !
+never_after_opt | conflict | S -> O N x | x y | q M ; O -> | z ; N -> ! ; M -> M M | m
+never_only | ok | S -> N ; N -> !
+never_tail | ok | S -> a | b N ; N -> !
+never_conflict_elsewhere | conflict | S -> I N | M ; I -> a ; N -> ! ; M -> M M | m
 eps_chain2_mid | ok | S -> k M id | id ; M -> p | D ; D -> N ; N ->
 eps_chain2_block | ok | B -> l Ss Lv r ; Ss -> | Ss s ; Lv -> C ; C -> H ; H ->
 eps_chain2_tail | ok | S -> n T ; T -> A eq num ; A -> Na | col id ; Na -> No ; No ->
@@ -93,6 +103,8 @@ def parse_dsl(line):
         lhs = lhs.strip()
         if lhs not in rules:
             rules[lhs] = []; nts.append(lhs)
+        if rhs.strip() == '!':
+            continue                  # a nonterminal without any production (enum with no variants)
         for alt in rhs.split('|'):
             rules[lhs].append(alt.split())
     return name, exp, nts, rules
